@@ -65,6 +65,7 @@ SCALARS = {
     'unsigned long long': 'unsigned long long', 'long long': 'long long', 'signed char': 'signed char',
     'float': 'float', 'double': 'double', 'time_t': 'long', 'uintptr_t': 'uintptr_t', 'intptr_t': 'intptr_t',
     'ptrdiff_t': 'ptrdiff_t', 'std::ptrdiff_t': 'ptrdiff_t', 'off_t': 'long', 'pid_t': 'int', 'socklen_t': 'unsigned int',
+    'iovec': 'struct iovec', 'timeval': 'struct timeval', 'timespec': 'struct timespec',
     '__uint8_t': 'uint8_t', '__uint16_t': 'uint16_t', '__uint32_t': 'uint32_t', '__uint64_t': 'uint64_t',
 }
 INT_RANGE = {
